@@ -34,4 +34,10 @@ META = {
         "note": "Trusted: the harness's row model and sort.Search. Corruption = exactly one byte XORed; truncation/multi-byte damage not covered. A non-terminating read of an altered file is counted, not judged. Native go fuzzing is not wired in.",
         "technique": "round-trip model check, exhaustive/sampled seek oracle, single-byte fault injection with child-process crash guard (rapid)",
     },
+    "C20": {
+        "text": "Every exported field of config.Config (found by reflection) is assigned values around each documented validity boundary, singly and in combination; an independent table of the documented constraints decides the expectation: an invalid configuration must be rejected by Validate and SaveManifest and leave the target directory tree byte-identical, a valid one must be stored and loaded back field-for-field equal. Every truncation length of each generated stored manifest (exhaustive per manifest) and JSON manifests with missing/ill-typed/invalid members must fail to load or load exactly the stored values. At engine level NewEngineFacade on a valid non-default manifest must place WAL and SST files only in the stored directories, switch the memtable at the stored size and keep the manifest bytes unchanged over open/write/close/reopen; on a directory with data and a damaged manifest it must return an error and change no file.",
+        "design_ref": "DESIGN.md section 5, C20",
+        "note": "Trusted: the hand-written constraint table (transcribed from Validate's messages), encoding/json for well-formedness of generated documents, tmpfs. Critical threshold equal to warning threshold is treated as undecided by the documentation. Strings are valid UTF-8. Engine cases use small sane configurations and wait for the background flush after every write.",
+        "technique": "table-oracle property testing (rapid) + save/load round trip + exhaustive truncation enumeration + directory-snapshot invariant",
+    },
 }
